@@ -246,6 +246,42 @@ Proof.
     simpl. rewrite Ew. destruct (encode_args ps r); try discriminate IH. reflexivity.
 Qed.
 
+(* ---- dependencies ---- *)
+
+Notation record_deps := (@record_deps V).
+
+(* Every invocationRef that addInvocation puts into the shipped arguments has its
+   invocation in the dependency set recorded for the invocation (so compile will
+   send it to a worker that lacks it).  User arguments never contain references. *)
+Theorem refs_in_deps known : forall args a1 i,
+  subst_args known args = SOk a1 -> In (ARef i) a1 ->
+  In (ARef i) args \/ In i (record_deps args).
+Proof.
+  induction args as [|a args IH]; intros a1 i Hs Hin; simpl in Hs.
+  - inversion Hs; subst. destruct Hin.
+  - destruct (subst_arg known a) as [a'|] eqn:Ea; [|discriminate].
+    destruct (subst_args known args) as [r|] eqn:Er; [|discriminate].
+    inversion Hs; subst a1. destruct Hin as [Hin|Hin].
+    + subst a'. destruct a as [|c v|c|j|j]; simpl in Ea.
+      * discriminate.
+      * discriminate.
+      * destruct c; discriminate.
+      * destruct (memZ j known); [|discriminate]. inversion Ea; subst. right. simpl. auto.
+      * inversion Ea; subst. left. simpl. auto.
+    + destruct (IH r i eq_refl Hin) as [H|H]; [left; simpl; auto|].
+      right. destruct a; simpl; auto.
+Qed.
+
+(* and conversely the dependency set holds exactly the Results among the arguments *)
+Theorem deps_are_results : forall args i, In i (record_deps args) <-> In (AResult i) args.
+Proof.
+  induction args as [|a args IH]; intro i; simpl; [tauto|].
+  destruct a as [|c v|c|j|j]; simpl; rewrite IH; split; intro H;
+    try (right; exact H); try (destruct H as [H|H]; [discriminate H | exact H]).
+  - destruct H as [H|H]; [left; now subst | right; exact H].
+  - destruct H as [H|H]; [left; now inversion H | right; exact H].
+Qed.
+
 (* ill-typed arguments are rejected by Invocation(), before anything is sent *)
 Theorem illtyped_rejected known compiled ps args :
   typecheck ps args = false -> transport known compiled ps args = OTypeErr.
@@ -286,3 +322,47 @@ Theorem nil_result_refuted :
 Proof. exists [PC CResult], [ATNil CResult]. repeat split. Qed.
 
 End TransportProofs.
+
+(* ---- shipping to a fresh worker: finite sweep over every dependency DAG on up
+        to 4 earlier invocations (node k may depend on any subset of 0..k-1) and
+        every set of Result arguments: the executor's walk plus the reversed
+        compile loop leave the worker with every argument's invocation compiled,
+        and never hit "invalid invocation reference" ---- *)
+Fixpoint subsets (l : list Z) : list (list Z) :=
+  match l with
+  | [] => [[]]
+  | x :: r => let s := subsets r in s ++ map (cons x) s
+  end.
+Fixpoint dags (n : nat) : list (list (Z * list Z)) :=
+  match n with
+  | O => [[]]
+  | S k =>
+      flat_map (fun g => map (fun ds => (Z.of_nat k, ds) :: g) (subsets (map fst g))) (dags k)
+  end.
+Definition fresh_ok (g : list (Z * list Z)) (roots : list Z) : bool :=
+  match walk (graph_fuel g) g roots with
+  | None => false
+  | Some order =>
+      match compile_all g (rev order) [] with
+      | None => false
+      | Some compiled => forallb (fun i => memZ i compiled) roots
+      end
+  end.
+Definition fresh_sweep (n : nat) : bool :=
+  forallb (fun g => forallb (fresh_ok g) (subsets (map fst g))) (dags n).
+
+Theorem fresh_ship_ok_upto4 :
+  fresh_sweep 0 = true /\ fresh_sweep 1 = true /\ fresh_sweep 2 = true /\
+  fresh_sweep 3 = true /\ fresh_sweep 4 = true.
+Proof. vm_compute. repeat split. Qed.
+
+Theorem fresh_ship_ok_upto4_each : forall n g roots, (n <= 4)%nat ->
+  In g (dags n) -> In roots (subsets (map fst g)) -> fresh_ok g roots = true.
+Proof.
+  intros n g roots Hn Hg Hr.
+  assert (H : fresh_sweep n = true).
+  { destruct fresh_ship_ok_upto4 as [H0 [H1 [H2 [H3 H4]]]].
+    destruct n as [|[|[|[|[|n]]]]]; try assumption. lia. }
+  unfold fresh_sweep in H. rewrite forallb_forall in H. specialize (H g Hg).
+  rewrite forallb_forall in H. exact (H roots Hr).
+Qed.
